@@ -75,19 +75,41 @@ def cause_of(cfg, snap0, cer):
     return sig
 
 
-def model_check(chk, cfgname, workers=8):
+def model_check(chk, cfgname, workers=8, prefixes=None):
+    """Model-check one CerMC configuration and return the exported behaviours.  A state of the MODEL in which a
+    layer-A invariant of this check's property is false is this check's alarm; one of another property is that
+    property's business (its own check model-checks the configurations made for it): it is noted, exempted for this
+    run (Known is extended in a copy of the configuration) and the run repeated."""
+    import re
     cfg = "CerMC_%s.cfg" % cfgname
     t0 = time.time()
     # per-action coverage (the vacuity guard on actions) costs TLC ~40%: thorough tier only; the quick tier's guard is
     # that every configuration exports behaviours and every replay yields events
     cov = chk.tier == "thorough"
-    r = vlib.tlc("CerMC.tla", cfg, chk.work, workers=workers, coverage=cov, timeout=3600, xmx="8g")
-    if r.invariant_violated:
-        names = [ln for ln in r.out.splitlines() if ln.startswith('<<"VIOLATED"')]
-        chk.violation({"inv": "model", "cfg": cfgname, "names": names[:1]},
-                      "the specification itself (layer B, %s) admits a state violating %s - replay its counterexample on the code" % (cfg, names[:1]),
-                      {"kind": "tlc-counterexample", "cfg": cfg, "out": r.out[-6000:]})
-        return None
+    use = cfg
+    exempt = set()
+    for _ in range(8):
+        r = vlib.tlc("CerMC.tla", use, chk.work, workers=workers, coverage=cov, timeout=3600, xmx="8g")
+        if not r.invariant_violated:
+            break
+        lines = [ln for ln in r.out.splitlines() if ln.startswith('<<"VIOLATED"')]
+        names = set(re.findall(r'"((?:C\d\d|Any)\.[A-Za-z0-9_.]+)"', " ".join(lines)))
+        mine = [n for n in names if prefixes is None or any(n.startswith(p) for p in prefixes)]
+        if mine or not names:
+            chk.violation({"inv": "model", "cfg": cfgname, "names": sorted(mine)[:2]},
+                          "the specification itself (layer B, %s) admits a state violating %s - replay its counterexample on the code" % (cfg, sorted(mine) or lines[:1]),
+                          {"kind": "tlc-counterexample", "cfg": cfg, "out": r.out[-6000:]})
+            return None
+        exempt |= names
+        chk.note("in the model of %s an invariant of another property is false (%s): left to that property's own check, exempted here" % (cfg, sorted(names)))
+        text = open(os.path.join(vlib.SPEC, cfg)).read()
+        m = re.search(r"Known = \{([^}]*)\}", text)
+        known = [x.strip() for x in m.group(1).split(",") if x.strip()] if m else []
+        known += ['"%s"' % n for n in sorted(exempt) if '"%s"' % n not in known]
+        use = os.path.join(chk.work, "exempt-" + cfg)
+        open(use, "w").write(re.sub(r"Known = \{[^}]*\}", "Known = {%s}" % ", ".join(known), text))
+    else:
+        raise vlib.ToolError("model of %s keeps violating foreign invariants: %s" % (cfg, sorted(exempt)))
     chk.model_run(cfg, r, expect_actions=["Begin", "StepCer", "Snap"] if cov else ())
     plans = r.prints("REPLAY")
     if not plans:
@@ -156,7 +178,7 @@ def replay_and_validate(chk, behaviours, label, prefixes, seed=None, isolate=Fal
 
 
 def run_config(chk, cfgname, prefixes):
-    plans = model_check(chk, cfgname)
+    plans = model_check(chk, cfgname, prefixes=prefixes)
     if plans is None:
         return
     beh = expand(plans)
